@@ -41,6 +41,7 @@ def run(chk, ctx):
                         shapes.add(canon(pi.ret()))
         good = len(shapes) == 1 and re.fullmatch(r"FromResidual::from_residual\(break!\(Try::branch\(TestDriver::\w+\(.*\)\)\)\)", list(shapes)[0] if shapes else "")
         chk.require(bool(good), "ORG", "ORG:%s:%s:error-propagated-unchanged" % (b.name.split("::")[-1], nm.split("::")[-1]), "Err(e) => return Err(From::from(e))", "the error of the %s call in %s leaves as %s" % (nm.split("::")[-1], b.name, sorted(shapes)), "%s:%d" % (b.file, b.term(bb)["span"]["line"]))
+    provided_write_input_rule(chk, P)
     chk.floor("ORG", "driver call sites with `?`", n, 3)
     # 3. next() forwards handle_io's error; try_iter forwards try_new's result
     nx = P.body(NEXT)
@@ -103,8 +104,15 @@ def run(chk, ctx):
                          (frozenset([(V, ("Virtual",))]), "Result::map_err(Result::map(Expr::eval((%s.1 as Virtual).0, ctx), fn:value::OutputValue::Value), closure({closure#0}))" % Z, "")}
             chk.require(full == want_full, "TAB", "TAB:extract:exact-per-entry-table", "None => X; Output(i) => outputs[i].value iff outputs[i].signal is the entry's signal, else Err; Virtual => eval; no other condition", "the per-entry extraction behaves as %s" % sorted(full, key=str))
             outer = set()
+            COLL = "Iterator::collect(Iterator::map(Iterator::zip([T]::iter(self.expected_indices), self.output_indices), closure({closure#0})))"
             for pi in tab.paths(P, ex, to_return_only=True):
-                outer.add((tab.path_facts(pi), ordrules.ret_shape(pi) if ordrules.ret_shape(pi) in ("Ok", "Err") else canon(pi.ret())))
+                rc = canon(pi.ret())
+                fs = tab.path_facts(pi)
+                # `let v = collect::<Result<_, _>>()?; ..; Ok(v)` returns the same Result as returning the collected one
+                if rc in ("Result::Ok{0: try(%s)}" % COLL, "FromResidual::from_residual(break!(Try::branch(%s)))" % COLL):
+                    rc = COLL
+                    fs = frozenset(f for f in fs if f[0] != "variant(Try::branch(%s))" % COLL)
+                outer.add((fs, ordrules.ret_shape(pi) if ordrules.ret_shape(pi) in ("Ok", "Err") and rc != COLL else rc))
             NL = sorted(["Vec::len(outputs)", "self.num_driver_outputs"])
             want_outer = {(frozenset([("Eq(%s, %s)" % tuple(NL), True)]), "Iterator::collect(Iterator::map(Iterator::zip([T]::iter(self.expected_indices), self.output_indices), closure({closure#0})))"),
                           (frozenset([("Ne(%s, %s)" % tuple(NL), True)]), "Err")}
